@@ -346,6 +346,34 @@ def _isfinite(x, *a, **kw):
     return _REAL["isfinite"](x, *a, **kw)
 
 
+def _isclose_obj(a, b, *args, **kw):
+    """exact semantics on symbolic data: two exact quantities are 'close' iff identical (a
+    non-trivial polynomial difference is non-zero in generic position)"""
+    a = np.asarray(a)
+    b = np.asarray(b)
+    a, b = np.broadcast_arrays(a, b)
+    out = np.empty(a.shape, dtype=bool)
+    for idx in np.ndindex(*a.shape):
+        d = P.lift(a[idx]) - P.lift(b[idx])
+        cv = d.constval()
+        out[idx] = (not d.t) or (cv is not None and abs(cv) < 1e-12)
+    if any((not o) for o in out.reshape(-1)) and len(P.ASSUMED) < 60:
+        P.ASSUMED.append("allclose/isclose on symbolic data: generic position (different polynomials are not close)")
+    return out
+
+
+def _wrap_close(real_fn, reduce_all):
+    @functools.wraps(real_fn)
+    def f(a, b, *args, **kw):
+        if _is_sym(np.asarray(a)) or _is_sym(np.asarray(b)) or isinstance(a, P.Poly) or isinstance(b, P.Poly):
+            r = _isclose_obj(a, b)
+            return bool(r.all()) if reduce_all else (r if r.ndim else bool(r))
+        return real_fn(a, b, *args, **kw)
+
+    f.__qv_real__ = real_fn
+    return f
+
+
 def _sum_like(name):
     real = getattr(np, name)
 
@@ -463,6 +491,8 @@ def install():
     np.finfo = _finfo
     for nm in ("sqrt", "exp", "log10", "cos", "sin"):
         setattr(np, nm, _unary(nm))
+    np.allclose = _wrap_close(np.allclose, True)
+    np.isclose = _wrap_close(np.isclose, False)
     np.max = _wrap_reduce(np.max, _max_stub)
     np.amax = np.max
     import quimb.core as _qc
@@ -470,3 +500,21 @@ def install():
     _REAL["realify_scalar"] = _qc.realify_scalar
     _qc.realify_scalar = _realify_scalar
     _tc.realify_scalar = _realify_scalar
+    # dtype shims (object arrays only): quimb picks output buffers by dtype *name*
+    if not hasattr(_qc.common_type, "__qv_real__"):
+        _real_ct = _qc.common_type
+
+        def _common_type(*arrays):
+            if any(getattr(a, "dtype", None) == object for a in arrays):
+                return object
+            return _real_ct(*arrays)
+
+        _common_type.__qv_real__ = _real_ct
+        _qc.common_type = _common_type
+
+        def _qarray_astype(self, dtype, *a, **k):
+            if self.dtype == object and np.dtype(dtype) != object:
+                return self.copy()
+            return np.ndarray.astype(self, dtype, *a, **k)
+
+        _qc.qarray.astype = _qarray_astype
